@@ -24,11 +24,11 @@ SHARD_TIMEOUT = {"quick": 600, "thorough": 3000}
 META = {
     "level": "exploration",
     "technique": "runtime monitoring on real TLS over loopback: throw-away CAs and leaf certificates minted with openssl, TLS servers that record the first TCP bytes, whether the handshake completed and whether any application data was ever decrypted; a spy on SSLContext.wrap_socket records verify_mode/check_hostname/server_hostname of the context actually used; outcome of connect() compared with a reference trust/name predicate",
-    "claim": "Over the option matrix cert_reqs {unset, CERT_NONE, CERT_REQUIRED} x check_hostname {unset, False, True} x trust source {none, ca_certs=A, ca_certs=B, ca_cert_path=A, WEBSOCKET_CLIENT_CA_BUNDLE file/dir A, custom context(A), SSL_CERT_FILE=A} x server_hostname {unset, matching, other} x server certificate {signed by A / by B / self-signed} x {SAN localhost / SAN other.test} x {direct, through an HTTP CONNECT proxy} (pairwise-covering random sample in quick, full product in thorough) connect() succeeded exactly when the checks in force accept the certificate; every rejected server received zero application bytes; wss streams started with a TLS record (0x16) - after the CONNECT exchange when tunnelled -; ws streams started with 'GET ' and were never wrapped; the context used carried the expected verify_mode / check_hostname / server_hostname.",
+    "claim": "Over the option matrix cert_reqs {unset, CERT_NONE, CERT_REQUIRED} x check_hostname {unset, False, True} x trust source {none, ca_certs=A, ca_certs=B, ca_cert_path=A, WEBSOCKET_CLIENT_CA_BUNDLE file/dir A, custom context(A), SSL_CERT_FILE=A, ca_certs=B with bundle file A, ca_cert_path=B with bundle dir A} x server_hostname {unset, matching, other} x server certificate {signed by A / by B / self-signed} x {SAN localhost / SAN other.test} x {direct, through an HTTP CONNECT proxy} (pairwise-covering random sample in quick, full product in thorough) connect() succeeded exactly when the checks in force accept the certificate; every rejected server received zero application bytes; wss streams started with a TLS record (0x16) - after the CONNECT exchange when tunnelled -; ws streams started with 'GET ' and were never wrapped; the context used carried the expected verify_mode / check_hostname / server_hostname.",
     "trusted": "OpenSSL/ssl as the verification engine and oracle of what a certificate matches; certificates minted by the openssl CLI; loopback networking",
     "rule": "case = (sslopt combination, env, server certificate, route); distinct by that tuple; non-trivial when TLS was attempted (every wss case)",
     "exhaustive": {"quick": False, "thorough": True},
-    "exhaustive_space": {"thorough": "3 x 3 x 8 x 3 x 6 x 2 = 2592 combinations", "quick": "random sample of 400 combinations + 40 fixed essential ones"},
+    "exhaustive_space": {"thorough": "3 x 3 x 10 x 3 x 6 x 2 = 3240 combinations", "quick": "random sample of 400 combinations + 40 fixed essential ones"},
     "bounds": "certfile/ciphers/ecdh_curve options not driven; SOCKS proxies absent; TLS backend = the installed OpenSSL",
     "required_counters": ["tls_cases", "accept_expected", "reject_expected", "server_records_checked"],
     "assumptions": ["loopback TCP and the openssl CLI are available in the sandbox"],
@@ -234,7 +234,7 @@ class Proxy(threading.Thread):
 
 CERT_REQS = ["unset", "none", "required"]
 CHECK_HOST = ["unset", False, True]
-TRUST = ["none", "ca_certs=A", "ca_certs=B", "ca_cert_path=A", "env-file=A", "env-dir=A", "context(A)", "SSL_CERT_FILE=A"]
+TRUST = ["none", "ca_certs=A", "ca_certs=B", "ca_cert_path=A", "env-file=A", "env-dir=A", "context(A)", "SSL_CERT_FILE=A", "ca_certs=B+env-file=A", "ca_cert_path=B+env-dir=A"]
 SNI = ["unset", "localhost", "other.test"]
 CERTS = ["leaf-A-local", "leaf-A-other", "leaf-B-local", "leaf-B-other", "leaf-self-local", "leaf-self-other"]
 ROUTE = ["direct", "proxy"]
@@ -256,7 +256,7 @@ def reference(cert_reqs, check_host, trust, sni, cert):
         else:
             name = check_host is not False
         trusted = {"none": set(), "ca_certs=A": {"A"}, "ca_certs=B": {"B"}, "ca_cert_path=A": {"A"}, "env-file=A": {"A"}, "env-dir=A": {"A"},
-                   "SSL_CERT_FILE=A": {"A"}}[trust]
+                   "SSL_CERT_FILE=A": {"A"}, "ca_certs=B+env-file=A": {"B"}, "ca_cert_path=B+env-dir=A": {"B"}}[trust]
     eff_name = "localhost" if sni == "unset" else sni
     ok = True
     if chain and issuer not in trusted:
@@ -298,6 +298,7 @@ def run(res, tier, seed, shard, nshards):
                     essential.append(("unset", "unset", "none", "unset", cert, route))
                     essential.append(("unset", "unset", "ca_certs=A", "unset", cert, route))
                     essential.append(("none", "unset", "none", "unset", cert, route))
+                    essential.append(("unset", "unset", "ca_certs=B+env-file=A", "unset", cert, route))
             r2 = random.Random(seed)
             sample = r2.sample(combos, 400)
             combos = essential + sample
@@ -342,6 +343,13 @@ def tls_case(res, W, P, servers, proxy, cert_reqs, check_host, trust, sni, cert,
         sslopt["context"] = ssl.create_default_context(cafile=P["caA"])
     elif trust == "SSL_CERT_FILE=A":
         os.environ["SSL_CERT_FILE"] = P["caA"]
+    elif trust == "ca_certs=B+env-file=A":
+        # the caller's explicit CA file wins over the environment bundle
+        sslopt["ca_certs"] = P["caB"]
+        os.environ["WEBSOCKET_CLIENT_CA_BUNDLE"] = P["caA"]
+    elif trust == "ca_cert_path=B+env-dir=A":
+        sslopt["ca_cert_path"] = P["cadirB"]
+        os.environ["WEBSOCKET_CLIENT_CA_BUNDLE"] = P["cadirA"]
     if sni != "unset":
         sslopt["server_hostname"] = sni
     srv = servers[cert]
@@ -395,8 +403,6 @@ def tls_case(res, W, P, servers, proxy, cert_reqs, check_host, trust, sni, cert,
         return
     issuer = cert.split("-")[1]
     why = []
-    if chain and issuer != "A" or (chain and trust in ("none", "ca_certs=B") and issuer == "A") or (chain and trust == "ca_certs=B" and issuer != "B"):
-        why.append("chain")
     if exp:
         if exc is not None:
             bad("valid-peer-rejected", f"{type(exc).__name__}: {str(exc)[:160]}", exc_type=type(exc).__name__)
